@@ -1,3 +1,4 @@
+//go:build verif
 // +build verif
 
 // Conformance rig for the broker (injected into package main of /repo/broker
@@ -46,13 +47,15 @@ const (
 type vEvent map[string]interface{}
 
 type vScenario struct {
-	ID    int               `json:"id"`
-	Mode  string            `json:"mode"` // "replay" | "herd"
-	Steps [][]interface{}   `json:"steps"`
-	Via   map[string]string `json:"via"`
-	Addr  map[string]string `json:"addr"`  // proxy name -> remote address
-	PType map[string]string `json:"ptype"` // proxy name -> proxy type
-	Fresh bool              `json:"fresh"` // start with a new BrokerContext
+	ID         int               `json:"id"`
+	Mode       string            `json:"mode"` // "replay" | "herd"
+	Steps      [][]interface{}   `json:"steps"`
+	Via        map[string]string `json:"via"`
+	Addr       map[string]string `json:"addr"`       // proxy name -> remote address
+	PType      map[string]string `json:"ptype"`      // proxy name -> proxy type
+	Fresh      bool              `json:"fresh"`      // start with a new BrokerContext
+	Rollover   bool              `json:"rollover"`   // a metrics period ends before this scenario
+	NoRelayExt map[string]bool   `json:"norelayext"` // proxies whose poll omits AcceptedRelayPattern
 }
 
 type vReq struct {
@@ -65,6 +68,8 @@ type vReq struct {
 	via     string
 	done    bool
 	started bool
+	addr    string
+	norelay bool
 }
 
 type vRig struct {
@@ -170,6 +175,12 @@ func (r *vRig) hook(point string, args ...interface{}) {
 	case "add":
 		ev["p"], ev["nat"], ev["load"], ev["ptype"] = args[0], args[1], args[2], args[3]
 		ev["locked"] = r.probe()
+		r.mu.Lock()
+		ev["addr"], ev["relayext"] = "?", true
+		if q := r.reqs[args[0].(string)]; q != nil {
+			ev["addr"], ev["relayext"] = q.addr, !q.norelay
+		}
+		r.mu.Unlock()
 	case "p.got":
 		ev["p"], ev["ok"] = args[0], args[1]
 	case "w.offer", "w.forwarded":
@@ -317,7 +328,13 @@ func (r *vRig) doProxy(q *vReq, sc *vScenario) vEvent {
 	if ptype == "" {
 		ptype = "standalone"
 	}
-	body, err := messages.EncodeProxyPollRequestWithRelayPrefix(q.name, ptype, vWireNat(q.nat), q.load, "")
+	var body []byte
+	var err error
+	if q.norelay {
+		body, err = json.Marshal(map[string]interface{}{"Sid": q.name, "Version": "1.2", "Type": ptype, "NAT": vWireNat(q.nat), "Clients": q.load})
+	} else {
+		body, err = messages.EncodeProxyPollRequestWithRelayPrefix(q.name, ptype, vWireNat(q.nat), q.load, "")
+	}
 	if err != nil {
 		panic(err)
 	}
@@ -464,7 +481,15 @@ func vInt(x interface{}) int {
 func (r *vRig) reqFromStep(st []interface{}, sc *vScenario) *vReq {
 	switch vStr(st[0]) {
 	case "ProxyRegister":
-		return &vReq{kind: "proxy", name: vStr(st[1]), nat: vStr(st[2]), load: vInt(st[3])}
+		q := &vReq{kind: "proxy", name: vStr(st[1]), nat: vStr(st[2]), load: vInt(st[3]), norelay: sc.NoRelayExt[vStr(st[1])]}
+		q.addr = sc.Addr[q.name]
+		if q.addr == "" {
+			q.addr = "192.0.2.77:4000"
+		}
+		if i := strings.LastIndex(q.addr, ":"); i >= 0 {
+			q.addr = q.addr[:i]
+		}
+		return q
 	case "ClientMatch":
 		via := sc.Via[vStr(st[1])]
 		if via == "" {
@@ -662,7 +687,13 @@ func (r *vRig) runScenario(t *testing.T, sc *vScenario) (events []vEvent, hung b
 	r.diverged = ""
 	r.sc = sc.ID
 	r.mu.Unlock()
-	r.emit(vEvent{"ev": "reset", "fresh": sc.Fresh, "mode": sc.Mode})
+	if sc.Rollover && !sc.Fresh {
+		// what logMetrics does at the end of a measurement period
+		r.mlog.Reset()
+		r.ctx.metrics.printMetrics()
+		r.ctx.metrics.zeroMetrics()
+	}
+	r.emit(vEvent{"ev": "reset", "fresh": sc.Fresh, "mode": sc.Mode, "rollover": sc.Rollover && !sc.Fresh})
 	func() {
 		defer func() {
 			if v := recover(); v != nil {
@@ -677,13 +708,13 @@ func (r *vRig) runScenario(t *testing.T, sc *vScenario) (events []vEvent, hung b
 			VerifHook = r.hook
 			r.runSteps(sc)
 			end := r.observeEnd(sc)
+			var metrics map[string]interface{}
 			if len(end["pending"].([]string)) == 0 {
+				metrics = r.metricsSnapshot()
 				end["fresh"] = r.freshClients()
-				end["metrics"] = r.metricsSnapshot()
 			} else {
 				hung = true
 				end["fresh"] = []string{}
-				end["metrics"] = map[string]interface{}{}
 			}
 			if end["avail"] != 0 || end["gauge"] != 0 || end["heaps"] != 0 {
 				// leftover registrations hold channels of this bubble: never reuse the context
@@ -695,6 +726,9 @@ func (r *vRig) runScenario(t *testing.T, sc *vScenario) (events []vEvent, hung b
 				}
 			}
 			r.emit(end)
+			if metrics != nil {
+				r.emit(vEvent{"ev": "metrics", "m": metrics, "nfresh": len(end["fresh"].([]string))})
+			}
 			VerifHook = nil
 			close(r.ctx.proxyPolls)
 		})
